@@ -65,8 +65,13 @@ struct WheelSvc : Svc
   TimingWheel w;
   uint64_t tick;
   std::string nm;
-  WheelSvc(int tickMs, size_t tpw, size_t levels)
-    : w(std::chrono::milliseconds(tickMs), tpw, levels), tick(uint64_t(tickMs) * 1000000ull),
+  // dispatched: the wheel hands every callback to a user-supplied dispatcher; ours runs it inline, on the
+  // wheel's own thread, so every rule (including "nothing after stop/drain") still applies unchanged
+  std::atomic<uint64_t> dispatched{0};
+  WheelSvc(int tickMs, size_t tpw, size_t levels, bool withDispatcher = false)
+    : w(std::chrono::milliseconds(tickMs), tpw, levels,
+        withDispatcher ? TimingWheel::Dispatcher([this](TimingWheel::Callback cb) { dispatched++; cb(); }) : TimingWheel::Dispatcher(nullptr)),
+      tick(uint64_t(tickMs) * 1000000ull),
       nm("wheel" + std::to_string(levels)) { w.start(); }
   uint64_t schedule(uint64_t us, std::function<void()> fn) override { return w.schedule(std::chrono::milliseconds(us / 1000), std::move(fn)); }
   bool cancel(uint64_t id) override { return w.cancel(id); }
@@ -247,7 +252,7 @@ static bool runScenario(uint64_t seed, uint64_t idx, int which)
     static const size_t tp[] = {4, 8, 16};
     tpw = tp[rng.below(3)];
     spanTicks = 1; for (size_t l = 0; l < levels; l++) spanTicks *= tpw;
-    S->svc = new WheelSvc(int(tickMs), tpw, levels);
+    S->svc = new WheelSvc(int(tickMs), tpw, levels, rng.chance(0.3));
   }
   else if (which == 1) S->svc = new TsSvc();
   else S->svc = new PoolSvc(size_t(rng.range(1, 4)));
@@ -530,6 +535,7 @@ static bool runScenario(uint64_t seed, uint64_t idx, int which)
   (void)quiescentNs; (void)endNs;
 
   O.obs("timers_with_sub_millisecond_delay", S->subMsTimers.load());
+  if (which == 0) { auto *ws = static_cast<WheelSvc *>(svc); if (ws->dispatched.load()) { O.obs("wheel_scenarios_with_dispatcher"); O.obs("wheel_callbacks_through_dispatcher", ws->dispatched.load()); } }
   O.obs("scenarios_" + N); O.obs("timers_valid", nValid); O.obs("timers_fired", nFired); O.obs("cancel_true", nCancelTrue); O.obs("cancel_false", nCancelFalse);
   O.obs("cancel_lost_race_to_fire", cancelLostRace); O.obs("reschedule_true", nReschedTrue); O.obs("periodic_timers", nPeriodic);
   O.obs("discarded_by_shutdown", nDiscarded); O.obs("refused_after_shutdown", nRefused); O.obs("late_schedule_refused", S->lateScheduleRefused.load());
